@@ -45,6 +45,20 @@ func ParseCode(input string, opts ...parseCodeOpt) (tree parser.IExpressionConte
 		err = errors.Wrapf(ErrInputTooLong, "at index=%v token=%v", index, last)
 		errListener.errors = append(errListener.errors, err)
 	}
+	// 未闭合的多行注释: 词法规则只匹配闭合的 /* */ 未闭合时 `/*` 会被拆成除号和星号
+	// (a /* c 成了 a / *c) 与 Go 一样 这里视为错误
+	stream.Fill()
+	toks := stream.GetAllTokens()
+	for i := 0; i+1 < len(toks); i++ {
+		if toks[i].GetTokenType() == parser.GoLexerDIV &&
+			toks[i+1].GetTokenType() == parser.GoLexerSTAR &&
+			toks[i+1].GetStart() == toks[i].GetStop()+1 {
+			errListener.errors = append(errListener.errors,
+				errors.Errorf("[SyntaxError] comment not terminated (position: %v)",
+					opt.start.Add(toks[i].GetLine(), toks[i].GetColumn())))
+			break
+		}
+	}
 	return tree, errListener.Err()
 }
 
